@@ -268,6 +268,32 @@ func c13Run(c *core.Ctx) {
 			}
 		}
 	}
+	// tables with a cell longer than a 4096-byte read buffer, in every row position
+	for at := 0; at < 3; at++ {
+		for _, delim := range []string{",", "\t"} {
+			if !c.Next() || c.Expired() {
+				continue
+			}
+			rows := [][]string{{"a", "b"}, {"c", "d"}, {"e", "f"}}
+			rows[at] = []string{strings.Repeat("x", 5000), "y"}
+			doc := build(rows, delim, "\n", true)
+			want := "text/csv"
+			if delim == "\t" {
+				want = "text/tab-separated-values"
+			}
+			pos.In, pos.Strs[0] = doc, want
+			c.R.States++
+			for _, l := range []uint32{0, uint32(len(doc) + 1), uint32(len(doc)), uint32(len(doc) - 1), uint32(len(doc) - 3), 5010, 5012, 5014, 8192} {
+				if int(l) != 0 && int(l) < 5009 && at < 2 {
+					continue
+				}
+				pos.Limit = l
+				c.R.Transitions++
+				c.R.Evals++
+				c.Check(pos)
+			}
+		}
+	}
 	// row-uniform larger tables: every row pattern (a c-tuple) repeated r times,
 	// plus alternation of two patterns
 	for cc := 2; cc <= 4; cc++ {
